@@ -24,7 +24,7 @@ MANIFEST = {
  'design_ref': 'DESIGN.md §6 C17',
 }
 THEOREMS = ['C17.crash_atomic', 'C17.flush_complete', 'C17.flush_skipped', 'C17.abort_safe',
-            'C17.history_versions', 'C17.multi_flush_atomic', 'C17.files_independent',
+            'C17.history_versions', 'C17.open_atomic', 'C17.multi_flush_atomic', 'C17.files_independent',
             'C17.temp_never_read', 'C17.backup_not_target', 'C17.temp_not_backup',
             'C17.cross_device_counter', 'C17.close_calls_ok', 'C17.callers_ok',
             'C17.direct_writers_known', 'C17.atomic_sites_cover',
@@ -299,7 +299,14 @@ class Caller(object):
             ircdb.IrcUserCreator.u = None
             unpreserve.Reader(ircdb.IrcUserCreator, d).readFile(path)
             return [[i, u.name, u.password, sorted(u.capabilities), sorted(u.hostmasks), u.secure] for i, u in sorted(d.users.items())]
-        return ud.flush, load
+        def reopen():
+            # the real start-up / reload path: read the file, then flush what was read (UsersDictionary.open)
+            d = ircdb.UsersDictionary()
+            ircdb.IrcUserCreator.u = None
+            d.open(path)
+        fl = lambda: ud.flush()
+        fl.reopen = reopen
+        return fl, load
 
     def channels(self, state, path):
         ircdb = self.b.ircdb
@@ -318,7 +325,13 @@ class Caller(object):
             ircdb.IrcChannelCreator.name = None
             unpreserve.Reader(ircdb.IrcChannelCreator, d).readFile(path)
             return [[n, c.lobotomized, c.defaultAllow, sorted(c.capabilities), sorted(c.bans)] for n, c in sorted(d.channels.items())]
-        return cd.flush, load
+        def reopen():
+            d = ircdb.ChannelsDictionary()
+            ircdb.IrcChannelCreator.name = None
+            d.open(path)
+        fl = lambda: cd.flush()
+        fl.reopen = reopen
+        return fl, load
 
     def networks(self, state, path):
         ircdb = self.b.ircdb
@@ -331,7 +344,12 @@ class Caller(object):
             from supybot import unpreserve
             unpreserve.Reader(ircdb.IrcNetworkCreator, d).readFile(path)
             return [[n, sorted(x.stsPolicies.items()), sorted(x.lastDisconnectTimes.items())] for n, x in sorted(d.networks.items())]
-        return nd.flush, load
+        def reopen():
+            d = ircdb.NetworksDictionary()
+            d.open(path)
+        fl = lambda: nd.flush()
+        fl.reopen = reopen
+        return fl, load
 
     def ignores(self, state, path):
         ircdb = self.b.ircdb
@@ -640,6 +658,10 @@ def explore_scenario(b, callers, sc, loader_cache, sample_points=None):
             old_bytes = f.read()
     if sc.kind not in ('flat', 'flatset'):
         flush, load = prep(sc.new_state, sc.target)
+    if sc.outcome == 'open':
+        # not a flush called by somebody, but the database being opened at start-up / by reload(): the real open()
+        # reads the file and then flushes what it has read
+        flush = prep(sc.old_state, sc.target)[0].reopen
     # trace run
     reset_dir(sc, old_bytes)
     code, tr = in_child(lambda: run_flush(b, sc, flush, None, sc.exdev))
@@ -657,6 +679,10 @@ def explore_scenario(b, callers, sc, loader_cache, sample_points=None):
     # the new version = everything the caller wrote (normally all of it goes to the temp file; a caller or an
     # AtomicFile that writes to the target directly is still judged against the full new content)
     new_bytes = b''.join(bytes.fromhex(e['d']) for e, rl in zip(events, roles) if e['k'] == 'write' and rl[0] in ('t', 'T'))
+    if sc.outcome == 'open':
+        # the new version is what a completed open() leaves in the file (all of what it read, written once)
+        final = snapshot(sc)[0]['T']
+        new_bytes = final if final is not None else b''
     # names seen
     seen_path = {}
     now = 0
@@ -844,6 +870,12 @@ def scenarios(ctx, root, r, thorough):
                     out.append(Scenario(root, kind, 'interrupted', st_n, st_n, CONFIGS[0], outcome='raise:%s:%d' % (cls, j)))
                 else:
                     out.append(Scenario(root, kind, 'interrupted', st_o, st_n, CONFIGS[0] if j else CONFIGS[1], outcome='raise:%s:%d' % (cls, j)))
+        # the database being opened (start-up, reload()): open() reads the file and flushes once at the end; a crash anywhere
+        # inside it must leave the old file or the completely re-written one
+        if kind in ('users', 'channels', 'networks'):
+            for n_old, cfg in ((3, CONFIGS[0]), (4, CONFIGS[1]), (1, CONFIGS[0])):
+                st = gen_state(r, kind, n_old)
+                out.append(Scenario(root, kind, 'reopened', st, st, cfg, outcome='open'))
         # aborted flushes (caller raises: rollback through __del__)
         for cfg in (CONFIGS[0], CONFIGS[1]):
             if kind not in ('flat', 'flatset'):
